@@ -64,7 +64,7 @@ def bytes_strategy():
 def float_strategy(t: str):
     if t == "float":
         return st.one_of(
-            st.sampled_from([0.0, -0.0, 1.0, -1.5, math.inf, -math.inf, math.nan, 1e-45, 3.4028234663852886e38]),
+            st.sampled_from([0.0, -0.0, 1.0, -1.5, math.inf, -math.inf, math.nan, 1.401298464324817e-45, 3.4028234663852886e38, 0.10000000149011612]),
             st.floats(width=32),
         )
     return st.one_of(
@@ -651,19 +651,22 @@ def field_classes(schema: Schema, mi: MI, tree, enums=True) -> List[str]:
 
 
 def tree_depth(schema: Schema, mi: MI, tree) -> int:
+    """Nesting depth of plain sub-messages actually present in tree."""
     d = 0
     for fi in mi.fields:
-        if fi.name not in tree or fi.type != "message" or fi.wkt:
-            if not (fi.card == "map" and fi.val.type == "message" and not fi.val.wkt and fi.name in tree):
-                continue
+        if fi.name not in tree:
+            continue
+        sub_fi = fi.val if fi.card == "map" else fi
+        if sub_fi.type != "message" or sub_fi.wkt is not None:
+            continue
         v = tree[fi.name]
-        sub_mi = schema.msg(fi.val.msg if fi.card == "map" else fi.msg)
         if fi.card == "repeated":
-            subs = v
+            subs = list(v)
         elif fi.card == "map":
             subs = [x for _, x in (v.items() if isinstance(v, dict) else v)]
         else:
             subs = [v]
+        sub_mi = schema.msg(sub_fi.msg)
         for s in subs:
             d = max(d, 1 + tree_depth(schema, sub_mi, s))
     return d
